@@ -16,7 +16,7 @@ RULE = ("labelled digraphs with at least one cycle (self-loops, 2-cycles, longer
         "components) on 1-4 commands enumerated (quick: sampled), 5-8 random; edge realisation in {direct, list, nested list, mixed}; "
         "probe library and real EEMS commands; distinct by (n, canonical cycle structure: self-loop / 2-cycle / longer, has-tail, "
         "has-acyclic-part, realisation, library)")
-REQUIRED_COUNTERS = ["cyclic_programs_run", "recursive_model_errors_seen", "run_depth_observations", "api_built_programs", "late_cycle_closures", "second_runs_of_rejected_programs", "eems2_self_references"]
+REQUIRED_COUNTERS = ["cyclic_programs_run", "recursive_model_errors_seen", "run_depth_observations", "api_built_programs", "late_cycle_closures", "second_runs_of_rejected_programs", "eems2_self_references", "results_read_before_the_run", "cycle_members_with_injected_results", "cyclic_files_through_the_tool"]
 EXHAUSTIVE = {"thorough": False}
 EXHAUSTIVE_NOTE = "thorough tier enumerates every cyclic labelled digraph on 1-4 commands (64 839 edge sets) in one realisation each plus random realisations"
 ASSUMPTIONS = ["whether commands outside the cycle executed before the rejection is not judged", "lineno of the error: any value"]
@@ -285,6 +285,38 @@ def run_case(ctx, case):
     except Exception as e:
         ctx.note_inconclusive("cyclic program did not load: %s" % repr(e)[:200])
         return
+    pre = None
+    if not late and not case.get("api") and case["order"] % 7 == 1:
+        # before the program is run, one result is asked for directly (it lies on or downstream of the cycle: whatever that
+        # gives, it is not an answer) - then the program is run as usual
+        pre = "result-read-first"
+        ctx.count("results_read_before_the_run")
+        try:
+            list(prog.commands.values())[case["order"] % len(prog.commands)].result
+        except BaseException:
+            pass
+    elif not late and case["lib"] == "probe" and not case.get("api") and case["order"] % 7 == 2:
+        # one command of the cycle already carries a result (set from outside, as the repository's test helpers do): its
+        # references still make the model circular
+        edges_ = [tuple(e) for e in case["edges"]]
+        adj_ = {i: [j for (a, j) in edges_ if a == i] for i in range(case["n"])}
+
+        def _reach(u, t):
+            seen, st_ = set(), list(adj_[u])
+            while st_:
+                v = st_.pop()
+                if v == t:
+                    return True
+                if v not in seen:
+                    seen.add(v)
+                    st_.extend(adj_[v])
+            return False
+        members_ = [i for i in range(case["n"]) if _reach(i, i)]
+        if members_:
+            pre = "cycle-member-holds-a-result"
+            ctx.count("cycle_members_with_injected_results")
+            c_ = prog.commands["N%d" % members_[case["order"] % len(members_)]]
+            c_.is_finished, c_._result = True, ("given", c_.result_name)
     log = trace.start()
     trace.attach(prog)
     err = None
@@ -303,9 +335,32 @@ def run_case(ctx, case):
     rkey = "%s:%s" % (case["lib"], case["real"] if case["real"] != "mixed" else "mixed")
     if err is None:
         unfinished = [n for n, c in prog.commands.items() if not c.is_finished]
-        ctx.fail("returned-normally:%s%s" % ("nothing-ran" if not executed else "partly-ran", ":cycle-closed-after-a-failed-run" if late else ""), {"late_command": late, "text": text, "executed": executed, "unfinished": unfinished, "structure": skey, "via": rkey})
+        ctx.fail("returned-normally:%s%s%s" % ("nothing-ran" if not executed else "partly-ran", ":cycle-closed-after-a-failed-run" if late else "", ":" + pre if pre else ""), {"late_command": late, "text": text, "executed": executed, "unfinished": unfinished, "structure": skey, "via": rkey})
         return
     name = type(err).__name__
+    if name == "RecursiveModelStructure" and case["lib"] == "eems" and not case.get("api") and not late and case["order"] % 4 == 0:
+        # the same file, with a writer at its end, through the command-line tool: the recursive-model report, not a crash
+        from click.testing import CliRunner
+        from mpilot.cli.mpilot import main
+        d2 = ctx.scratch()
+        with open(d2 + "/in.csv", "w") as f:
+            f.write("X0\n1\n2\n3\n")
+        fp = d2 + "/cyclic.mpt"
+        tail = '\nOutW = EEMSWrite(OutFileName = "o.csv", OutFieldNames = [Leaf, N%d])\nShown = PrintVars(InFieldNames = [N%d], OutFileName = "vars.txt")\n' % (case["order"] % case["n"], (case["order"] // 3) % case["n"])
+        with open(fp, "w") as f:
+            f.write(text + tail)
+        try:
+            res = CliRunner(mix_stderr=False).invoke(main, ["eems-csv", fp])
+        except TypeError:
+            res = CliRunner().invoke(main, ["eems-csv", fp])
+        try:
+            etxt = res.stderr
+        except Exception:
+            etxt = res.output
+        ctx.count("cyclic_files_through_the_tool")
+        if res.exit_code == 0 or "recursive" not in etxt.lower() or "recursion depth" in etxt.lower() or (res.exception is not None and not isinstance(res.exception, SystemExit)):
+            ctx.fail("command-line-tool:%s" % ("accepts-the-cyclic-file" if res.exit_code == 0 else "stack-exhausted" if "recursion" in etxt.lower() else "no-recursive-model-report"), {"text": text + tail, "stderr": etxt[-300:], "exit": res.exit_code})
+            return
     if name == "RecursiveModelStructure":
         ctx.count("recursive_model_errors_seen")
         if case["order"] % 3 == 0:
@@ -344,4 +399,4 @@ def run_case(ctx, case):
     if "RecursionError" in chain or depth > 50:
         ctx.fail("stack-exhausted:%s%s" % (rkey.split(":")[1], ":cycle-closed-after-a-failed-run" if late else ""), {"late_command": late, "chain": chain, "depth": depth, "text": text, "structure": skey})
     else:
-        ctx.fail("wrong-error-%s" % name, {"chain": chain, "text": text, "error": str(err)[:300], "structure": skey})
+        ctx.fail("wrong-error-%s%s" % (name, ":" + pre if pre else ""), {"chain": chain, "text": text, "error": str(err)[:300], "structure": skey})
